@@ -1216,7 +1216,7 @@ impl<'a> CompilerState<'a> {
                                     VariableType::Char => VariableType::CharPtr,
                                     _ => {
                                         return Err(self
-                                            .syntax_error("Type too complex not supported", start))
+                                            .syntax_error("Type too complex not supported", p.as_span().start()))
                                     }
                                 }
                             }
@@ -1738,7 +1738,7 @@ impl<'a> CompilerState<'a> {
                                             _ => {
                                                 return Err(self.syntax_error(
                                                     "Type too complex not supported",
-                                                    start,
+                                                    p.as_span().start(),
                                                 ))
                                             }
                                         }
@@ -2025,6 +2025,7 @@ impl<'a> CompilerState<'a> {
                 Rule::parameters => {
                     let px = pair.into_inner();
                     for p in px {
+                        let param_start = p.as_span().start();
                         let param = p.into_inner();
                         let mut var_type = VariableType::Char;
                         let mut var_const = false;
@@ -2068,7 +2069,7 @@ impl<'a> CompilerState<'a> {
                                         _ => {
                                             return Err(self.syntax_error(
                                                 "Type too complex not supported",
-                                                start,
+                                                param_start,
                                             ))
                                         }
                                     }
